@@ -95,3 +95,54 @@ package signature
 
 //@ func RegisterEnvelopeType(mediaType, newFunc, parseFunc)
 //@   ensures [ok] (newFunc != nil && parseFunc != nil) <==> result == nil
+
+// ---- signer.go
+//@ import "crypto/rsa"
+//@ import "crypto/ecdsa"
+// stmt C16: "A local signer cannot even be constructed from a private key that does not belong to the leaf
+// certificate": the key is of the kind the leaf's key spec names and its public half equals the leaf's key
+//@ stmt spec func KeyMatches(priv any, pub any, t KeyType) bool {
+//@     (t == KeyTypeRSA && typeof(priv) == type(*rsa.PrivateKey) && unbox(priv, type(*rsa.PrivateKey)) != nil && fieldptr(unbox(priv, type(*rsa.PrivateKey)), PublicKey).Equal(pub)) ||
+//@     (t == KeyTypeEC && typeof(priv) == type(*ecdsa.PrivateKey) && unbox(priv, type(*ecdsa.PrivateKey)) != nil && fieldptr(unbox(priv, type(*ecdsa.PrivateKey)), PublicKey).Equal(pub)) }
+//@ func isKeyPair(priv, pub, keySpec)
+//@   ensures [iff] result <==> KeyMatches(priv, pub, keySpec.Type)
+//@ func NewLocalSigner(certs, key)
+//@   props C16
+//@   requires len(certs) > 0 ==> certs[0] != nil && algorithm.KeyShape(certs[0].PublicKey)
+//@   ensures [ok=>pair] err == nil ==> len(certs) > 0 && ExtractKeySpec$(certs[0]).err == nil && KeyMatches(key, certs[0].PublicKey, ExtractKeySpec$(certs[0]).result0.Type)
+//@   ensures [ok=>signer] err == nil ==> typeof(result) == type(*localSigner) && fresh(unbox(result, type(*localSigner))) && unbox(result, type(*localSigner)).key == key && unbox(result, type(*localSigner)).certs == certs && unbox(result, type(*localSigner)).keySpec == ExtractKeySpec$(certs[0]).result0
+//@   ensures [err] err != nil ==> result == nil
+//@   ensures [mismatch=>typed] (len(certs) == 0 || (ExtractKeySpec$(certs[0]).err == nil && !KeyMatches(key, certs[0].PublicKey, ExtractKeySpec$(certs[0]).result0.Type))) ==> typeof(err) == type(*InvalidArgumentError)
+//@ func (*localSigner).Sign(s, content)
+//@   ensures [refuses] err != nil && len(result0) == 0 && len(result1) == 0
+//@ func (*localSigner).KeySpec(s)
+//@   requires s != nil
+//@   ensures [field] err == nil && result == s.keySpec
+//@ func (*localSigner).CertificateChain(s)
+//@   requires s != nil
+//@   ensures [field] err == nil && result == s.certs
+//@ func (*localSigner).PrivateKey(s)
+//@   requires s != nil
+//@   ensures [field] result == s.key
+
+// ---- errors.go: receivers of error values this module creates are non-nil; wrapped errors are set at creation
+//@ func (*SignatureIntegrityError).Error(e)
+//@   requires e != nil && e.Err != nil
+//@ func (*SignatureIntegrityError).Unwrap(e)
+//@   requires e != nil
+//@ func (*UnsupportedSignatureFormatError).Error(e)
+//@   requires e != nil
+//@ func (*InvalidArgumentError).Error(e)
+//@   requires e != nil
+//@ func (*InvalidArgumentError).Unwrap(e)
+//@   requires e != nil
+//@ func (*InvalidSignRequestError).Error(e)
+//@   requires e != nil
+//@ func (*UnsupportedSignatureAlgoError).Error(e)
+//@   requires e != nil
+//@ func (*DuplicateKeyError).Error(e)
+//@   requires e != nil
+//@ func (*TimestampError).Error(e)
+//@   requires e != nil
+//@ func (*TimestampError).Unwrap(e)
+//@   requires e != nil
